@@ -1,4 +1,5 @@
 import HpxVerif.Model.Proj
+import HpxVerif.Lemmas.ProjReal
 
 /-!
 # C17 — HEALPix projection and de-projection are inverse, in range, base-cell exact
@@ -9,7 +10,11 @@ Proved for every input of every numeric instance (every `f64` bit pattern at `Fl
   inputs — this is the repaired behaviour of finding F10 (before the `fix:` commit the value could be 8 for base cell 4,
   or ≥ 12 on polar-cap seams); `base_cell_offset_in_range`: the quarter offset of `pm1_offset_decompose` is one of
   1, 3, 5, 7.
-Open statements (over the reals): `proj_eq_spec`, `unproj_proj`, `proj_unproj`, `base_cell_from_proj_coo_spec`;
+Over ℝ (the same model functions at `α := ℝ`): `cea_roundtrip_real`, `collignon_roundtrip_real` (both halves of the
+projection are inverted exactly) and **`unproj_proj_real_partial`: `unproj (proj (lon, lat)) = (lon, lat)`** for
+`0 ≤ lon < 2π`, `0 ≤ lat ≤ π/2` up to the code's pole threshold (`√6·cos(lat/2 + π/4) > EPS_POLE`, i.e. colatitude above
+about `8e-14` rad) — partial: negative longitudes/latitudes go through `|·|` and the sign bits and are not restated.
+Open statements (over the reals): `proj_eq_spec`, `proj_unproj`, `base_cell_from_proj_coo_spec`;
 validated by the bit-exact correspondence on `proj`, `unproj`, `base_cell_from_proj_coo` and by oracles against an
 independent implementation of the Calabretta & Roukema formulae.
 -/
@@ -50,5 +55,29 @@ theorem base_cell_total {α : Type} [Num α] (x y : α) :
   unfold baseCellFromProjCoo
   simp only [Bool.false_and, Bool.false_eq_true, if_false]
   exact ⟨_, rfl, baseCellFinish_lt _ _ _ _⟩
+
+/-- over ℝ: the cylindrical equal-area half of the projection is inverted exactly -/
+theorem cea_roundtrip_real (x lat : ℝ) (h1 : -(Real.pi / 2) ≤ lat) (h2 : lat ≤ Real.pi / 2) :
+    deprojCea (α := ℝ) (projCea (x, lat)) = (x, lat) := deprojCea_projCea x lat h1 h2
+
+/-- over ℝ: the Collignon half of the projection is inverted exactly, up to the pole threshold of the code -/
+theorem collignon_roundtrip_real (x lat : ℝ) (hx1 : -1 ≤ x) (hx2 : x ≤ 1) (h1 : -(Real.pi / 2) ≤ lat) (h2 : lat ≤ Real.pi / 2)
+    (hpole : (Num.epsPole : ℝ) < Real.sqrt 6 * Real.cos (1 / 2 * lat + Real.pi / 4)) :
+    deprojCollignon (α := ℝ) (projCollignon (x, lat)) = (x, lat) :=
+  deprojCollignon_projCollignon x lat hx1 hx2 h1 h2 hpole (le_of_lt epsPole_pos)
+
+/-- **over ℝ, `unproj (proj p) = p`** for every position of the quarter-domain `0 ≤ lon < 2π`, `0 ≤ lat ≤ π/2` on the near
+    side of the code's pole threshold (the other three quarter-domains are its mirror images through `|·|` and the sign
+    bits; see the level note) -/
+theorem unproj_proj_real_partial (lon lat : ℝ) (hlon0 : 0 ≤ lon) (hlon1 : lon < 2 * Real.pi) (hlat0 : 0 ≤ lat)
+    (hlat1 : lat ≤ Real.pi / 2)
+    (hpole : (Num.epsPole : ℝ) < Real.sqrt 6 * Real.cos (1 / 2 * lat + Real.pi / 4)) :
+    ∃ X Y, proj (α := ℝ) lon lat = some (X, Y) ∧ unproj (α := ℝ) X Y = some (lon, lat) :=
+  unproj_proj_real lon lat hlon0 hlon1 hlat0 hlat1 hpole
+
+/-- the hypotheses are satisfiable: `(lon, lat) = (1, 0)` -/
+example : (0 : ℝ) ≤ 1 ∧ (1 : ℝ) < 2 * Real.pi ∧ (0 : ℝ) ≤ 0 ∧ (0 : ℝ) ≤ Real.pi / 2 := by
+  have := Real.two_le_pi
+  refine ⟨by norm_num, by linarith, le_refl _, by linarith⟩
 
 end Hpx.C17
